@@ -92,6 +92,8 @@ pub struct Outcome {
     pub ops_run: u64,
     /// canonical responses of the mutating operations (twin comparison, C07)
     pub responses: Vec<String>,
+    /// index of the operation each response belongs to
+    pub resp_ops: Vec<usize>,
     pub final_state: String,
     /// the run was cut short by a budget overrun / panic at this op
     pub aborted_at: Option<usize>,
@@ -364,6 +366,7 @@ impl<'a> Run<'a> {
         let r = guarded(|| self.level.add_order(lib));
         self.hooks.end_op();
         self.out.responses.push("A".into());
+        self.out.resp_ops.push(at);
         match r {
             Err(f) => {
                 self.viol("C01", "add-fails", at, format!("add_order {}", f.brief()));
@@ -449,6 +452,7 @@ impl<'a> Run<'a> {
                     self.viol("C01", "match-panics", at, d);
                 }
                 self.out.responses.push(format!("M-FAIL {sig}"));
+                self.out.resp_ops.push(at);
                 self.out.aborted_at = Some(at);
                 return;
             }
@@ -457,6 +461,7 @@ impl<'a> Run<'a> {
         let canon = canon_match(&res);
         self.dg.str(&canon);
         self.out.responses.push(canon);
+        self.out.resp_ops.push(at);
 
         let txs = res.transactions.as_vec().clone();
         // ---- C02 arithmetic
@@ -889,6 +894,7 @@ impl<'a> Run<'a> {
             Err(f) => {
                 self.viol("C07", "update-fails", at, format!("{} {}", u.brief(), f.brief()));
                 self.out.responses.push("U-FAIL".into());
+                self.out.resp_ops.push(at);
                 self.out.aborted_at = Some(at);
                 return;
             }
@@ -900,6 +906,7 @@ impl<'a> Run<'a> {
         };
         self.dg.str(&canon);
         self.out.responses.push(canon);
+        self.out.resp_ops.push(at);
 
         let same_price_update = u.kind == UpdKind::Price && u.price == self.lp;
         // expected bookkeeping first (so that check_state sees the right expectation)
@@ -1261,6 +1268,7 @@ impl<'a> Run<'a> {
                     format!("rebuild via path {path} (lie {lie}) failed: {m}"),
                 );
                 self.out.responses.push("R-ERR".into());
+                self.out.resp_ops.push(at);
                 return;
             }
             Err(f) => {
@@ -1271,11 +1279,13 @@ impl<'a> Run<'a> {
                     format!("rebuild via path {path} (lie {lie}) {}", f.brief()),
                 );
                 self.out.responses.push("R-FAIL".into());
+                self.out.resp_ops.push(at);
                 self.out.aborted_at = Some(at);
                 return;
             }
         };
         self.out.responses.push("R".into());
+        self.out.resp_ops.push(at);
         self.level = new;
         self.rebase_stats();
         // paths that re-add orders count them as added; the baseline is read after construction
@@ -1640,6 +1650,68 @@ impl<'a> Exec<'a> {
         drop(_inst);
         out
     }
+}
+
+/// C07 purity, blind twin: the mutating library calls of a history that produced `resp_ops`
+/// (indices into `h.ops`), made with *no* library call of any kind in between -- no read-only
+/// operation of the history and none of the monitors' own observations (listing, aggregates,
+/// statistics), which the observed run makes after every step.  Stops in front of the first rebuild.
+/// Returns the canonical responses and, when the whole history was replayed, the final state.
+pub fn run_blind(h: &History, resp_ops: &[usize]) -> Option<(Vec<String>, Option<String>)> {
+    let hooks = SeqHooks::new(h.knobs.clock.clone(), h.knobs.hash_seed, h.knobs.shards);
+    let _inst = Installed::new(hooks.clone());
+    let level = PriceLevel::new(h.knobs.price);
+    let generator = UuidGenerator::new(Uuid::from_u128(h.knobs.namespace));
+    let mut held = vec![];
+    let mut responses = vec![];
+    let mut complete = true;
+    for &i in resp_ops {
+        let Some(op) = h.ops.get(i) else {
+            return None;
+        };
+        hooks.begin_op(2_000_000);
+        let r = match op {
+            Op::Add(o) => {
+                let lib = o.to_lib();
+                guarded(|| level.add_order(lib)).map(|a| {
+                    if h.knobs.hold && held.len() < 4096 {
+                        held.push(a);
+                    }
+                    "A".to_string()
+                })
+            }
+            Op::Match { qty, taker } => {
+                let t = taker.to_lib();
+                guarded(|| level.match_order(*qty, t, &generator)).map(|r| canon_match(&r))
+            }
+            Op::Upd(u) => {
+                let lib = u.to_lib();
+                guarded(|| level.update_order(lib)).map(|r| match &r {
+                    Ok(Some(o)) => format!("U Some({})", OrderSpec::of(o).brief()),
+                    Ok(None) => "U None".to_string(),
+                    Err(_) => "U Err".to_string(),
+                })
+            }
+            _ => {
+                hooks.end_op();
+                complete = false;
+                break;
+            }
+        };
+        hooks.end_op();
+        match r {
+            Ok(c) => responses.push(c),
+            Err(_) => return None,
+        }
+    }
+    let fin = if complete {
+        Some(state_string(&level))
+    } else {
+        None
+    };
+    drop(held);
+    drop(level);
+    Some((responses, fin))
 }
 
 /// Execute a history.  Pure function of (history, code).
